@@ -251,7 +251,11 @@ def read_range_input(specification: str) -> List[float]:
         step = 0.005
         if len(parts) == 3:
             step = float(parts[2])
-        values = np.arange(min_value, max_value + step, step).tolist()
+        # Stop just above max_value, so that max_value is the last element
+        # when it lies on the grid and no element goes beyond it.
+        values = np.minimum(
+            np.arange(min_value, max_value + 1e-9*step, step), max_value
+        ).tolist()
     elif ',' in specification:
         values = [float(s) for s in specification.split(',')]
     else:
